@@ -77,6 +77,11 @@ def strategy_(draw):
         # (repeated labels), a shifted range, or dates
         c["index"] = draw(st.sampled_from(["range", "range", "repeated", "offset", "dates"]))
         c["index_period"] = draw(st.integers(5, 40))
+        # production records as they come from a daily report: whole-number volumes and pressures in integer columns
+        c["int_columns"] = draw(st.integers(0, 3)) == 0
+        # the Days column counts calendar days (gaps on days without a report) or is not sorted - it is documented as
+        # informational when filtering re-indexes the productive days
+        c["days_column"] = draw(st.sampled_from(["0..n-1", "0..n-1", "gapped", "offset"]))
     return c
 
 
@@ -196,7 +201,24 @@ def check_case(case) -> Result:
     pres = pf.copy()
     if case["filter"]:
         pres[case["nan_days"]] = np.nan
-    prod = pd.DataFrame({"Days": days, "Gas": gas, "Pressure": pres, "Other": np.arange(n)})
+    gas_col, pres_col = gas, pres
+    res.labels["int_columns"] = False
+    if case.get("int_columns") and float(np.max(gas)) >= 50.0 and not np.any(np.isnan(pres)):
+        gas = np.where(gas > 0, np.maximum(1.0, np.rint(gas)), 0.0)
+        pres = np.rint(pres)
+        gas_col, pres_col = gas.astype(np.int64), pres.astype(np.int64)
+        if case["window"] not in (None, 1):
+            # a boxcar average of an integer column is computed by SciPy in integer arithmetic (truncated); the
+            # property does not say how the average is rounded, so integer pressures are only used unsmoothed
+            pres_col = pres.astype(float)
+        res.labels["int_columns"] = True
+    days_col = days
+    if case["filter"] and case.get("days_column") == "gapped":
+        days_col = days + np.cumsum(np.arange(n) % 7 == 3)  # a calendar with missing report days
+    elif case["filter"] and case.get("days_column") == "offset":
+        days_col = days + 400.0
+    res.labels["days_column"] = case.get("days_column", "0..n-1") if case["filter"] else "0..n-1"
+    prod = pd.DataFrame({"Days": days_col, "Gas": gas_col, "Pressure": pres_col, "Other": np.arange(n)})
     kind = case.get("index", "range")
     if kind == "repeated":
         prod.index = np.arange(n) % case["index_period"]
